@@ -98,6 +98,7 @@ type Specs struct {
 	Axioms  []*Axiom
 	Globals map[string]string // "pkgpath.Var" -> "nonnil" (global invariants)
 	Errors  []string
+	CallbackFrame []string // allocation types that calls of unknown function values (application callbacks) never modify
 	TypeInvs map[string]bool // predicate names that are object invariants (implicit precondition of every interface call)
 	Abstractions map[string]*Pred // ghost name -> definition over the implementing type's fields (refinement checks)
 	Writers []WriterRule
@@ -131,7 +132,7 @@ func extractSpecLines(text string) (lines []string, nums []int) {
 }
 
 var clauseKeywords = []string{"requires", "ensures", "modifies", "loop", "invariant", "decreases", "let", "fresh", "pure", "trusted", "effect", "crash", "havoc", "assume", "refines"}
-var blockKeywords = []string{"func", "invoke", "ghost", "spec", "pred", "axiom", "global", "abstraction", "writers", "typeinv"}
+var blockKeywords = []string{"func", "invoke", "ghost", "spec", "pred", "axiom", "global", "abstraction", "writers", "typeinv", "callbackframe"}
 
 func firstWord(s string) (string, string) {
 	s = strings.TrimSpace(s)
@@ -437,6 +438,13 @@ func (sp *Specs) parseSpecText(file, text, pkgPath string) {
 		case "typeinv":
 			cur = nil
 			sp.TypeInvs[strings.TrimSpace(rest)] = true
+		case "callbackframe":
+			cur = nil
+			for _, ty := range strings.Split(rest, ",") {
+				if ty = strings.TrimSpace(ty); ty != "" {
+					sp.CallbackFrame = append(sp.CallbackFrame, ty)
+				}
+			}
 		case "writers":
 			cur = nil
 			// writers <pkgpath.Type> fields f1,f2 only <func key>; <func key>
